@@ -66,13 +66,31 @@ class SumTerm:
 
     def lemmas(self, engine, path, others=()):
         n = term(self.n)
-        j = self.j_nonneg
-        out = [z3.Implies(self.c < 0, z3.And(0 <= j, j < n, self.summand(j) < 0))]
-        j = self.j_pos
-        out.append(z3.Implies(self.c <= 0, z3.Or(n <= 0, z3.And(0 <= j, j < n, self.summand(j) <= 0))))
-        out.append(z3.Implies(n == 0, self.c == 0))
-        out.append(z3.Implies(n == 1, self.c == self.summand(z3.IntVal(0))))
+        fam = getattr(path, 'sum_family', None)
+        out = []
+        if fam in (None, 'nonneg'):
+            j = self.j_nonneg
+            out.append(z3.Implies(self.c < 0, z3.And(0 <= j, j < n, self.summand(j) < 0)))
+        if fam in (None, 'pos'):
+            j = self.j_pos
+            out.append(z3.Implies(self.c <= 0, z3.Or(n <= 0, z3.And(0 <= j, j < n, self.summand(j) <= 0))))
+        if fam in (None, 'len'):
+            out.append(z3.Implies(n == 0, self.c == 0))
+            out.append(z3.Implies(n == 1, self.c == self.summand(z3.IntVal(0))))
         return out
+
+    def scale_lemmas(self, other, path, c):
+        """sum_a == c * sum_b unless some summand breaks it (witness-skolemised, both orientations are tried)"""
+        key = ('scale', id(other), c.get_id())
+        if key not in self.wit:
+            self.wit[key] = fresh('js', I)
+        js = self.wit[key]
+        path.note_idx(js)
+        n1, n2 = term(self.n), term(other.n)
+        if getattr(path, 'sum_family', None) not in (None, 'scale'):
+            return []
+        return [z3.Implies(z3.And(n1 == n2, self.c != c * other.c),
+                           z3.And(0 <= js, js < n1, self.summand(js) != c * other.summand(js)))]
 
     def pair_lemmas(self, other, path):
         key = id(other)
@@ -82,12 +100,16 @@ class SumTerm:
         for j in (je, jl, jg):
             path.note_idx(j)
         n1, n2 = term(self.n), term(other.n)
-        out = [z3.Implies(z3.And(n1 == n2, self.c != other.c),
-                          z3.And(0 <= je, je < n1, self.summand(je) != other.summand(je))),
-               z3.Implies(z3.And(n1 == n2, self.c > other.c),
-                          z3.And(0 <= jl, jl < n1, self.summand(jl) > other.summand(jl))),
-               z3.Implies(z3.And(n1 == n2, self.c < other.c),
-                          z3.And(0 <= jg, jg < n1, self.summand(jg) < other.summand(jg)))]
+        fam = getattr(path, 'sum_family', None)
+        out = []
+        if fam in (None, 'eq'):
+            out.append(z3.Implies(z3.And(n1 == n2, self.c != other.c),
+                                  z3.And(0 <= je, je < n1, self.summand(je) != other.summand(je))))
+        if fam in (None, 'order'):
+            out.append(z3.Implies(z3.And(n1 == n2, self.c > other.c),
+                                  z3.And(0 <= jl, jl < n1, self.summand(jl) > other.summand(jl))))
+            out.append(z3.Implies(z3.And(n1 == n2, self.c < other.c),
+                                  z3.And(0 <= jg, jg < n1, self.summand(jg) < other.summand(jg))))
         return out
 
 
